@@ -29,6 +29,15 @@ CHECKS = {
             "each transition runs on the implementation (uniquely owned operand and operand that stays referenced) and must equal the model, errors included.",
             "Trusted: the Python twins/models and the encoder hook. Immutable-vs-mutable vector equality, NaN and mutable keys are left unspecified.",
             "DESIGN.md §3 C11"),
+    "C07": ("exploration",
+            "small-scope exhaustive enumeration of inputs: all token sequences / byte strings up to a length through the full pipeline, every pure native built-in x every argument tuple of arity 0..2 over a value alphabet, and all histories of good/failing evaluations up to a depth, on the real engine in forked children",
+            "Every token sequence up to length 3 (thorough 4 over a reduced menu) and every short byte string is evaluated; every pure native built-in "
+            "(~390, effectful ones excluded by name) is called with all ~1800 argument tuples over one value per kind plus boundary magnitudes, with a "
+            "progress mark before each call so that a panic, abort, hang or allocation failure is attributed to a single call; every history of up to 3 (4) "
+            "events from 12 good/failing event kinds is replayed with a probe program, stack-depth and earlier-definition checks after every step.",
+            "Trusted: the deny-list of effectful built-ins, the 6 GB address-space cap (allocation failure = host crash), catch_unwind attribution with JIT off. "
+            "Arity >= 3 calls and longer texts are outside the bound.",
+            "DESIGN.md §3 C07"),
 }
 
 NOT_YET = {}
